@@ -408,3 +408,13 @@ def every_attempt_gets_a_fresh_request_with_the_configured_budget(later: float):
 # "returns a reply only if one was actually delivered FOR IT": a packet addressed to another client is not unwrapped (shared with C07)
 harness(prop="C06", target="geckolib.async_spa:GeckoAsyncSpa._async_on_packet",
         name="a_packet_for_another_client_never_satisfies_a_request")(c07_dispatch.misaddressed_packet_has_no_effect)
+
+
+# the pause between attempts (config_sleep) waits on the shared wake-up future without disturbing the other sleepers (shared with C17)
+def _register_pause():
+    from contracts import c17_config
+    harness(prop="C06", target="geckolib.config:config_sleep", name="pausing_between_attempts_leaves_other_sleepers_alone")(
+        c17_config.sleeper_waits_on_the_current_future)
+
+
+_register_pause()
